@@ -1411,6 +1411,93 @@ func (g *gen) clsNearLine() (*sh, *sh) {
 	return g.wrapPair(a, ka, pointSh(p), kb)
 }
 
+// perp_foot: two operands that do NOT intersect and whose nearest points include the foot of a
+// perpendicular (not just two vertices). The picture is drawn in a frame (u,v) and mapped by the
+// lattice similarity (u,v) -> u*d + v*n with d a primitive direction and n = d rotated by 90
+// degrees (distances are multiplied by |d|, irrational for the sloped directions): A lies in
+// v <= 0 and has the edge v = 0, 0 <= u <= t (a segment of a LineString, or an edge of a
+// rectangle - sometimes with a hole - or triangle); B lies in v >= m >= 1 and has either a vertex
+// (s,m) with 0 < s < t (a point, the end or a bend of a LineString, the lowest vertex of a
+// triangle) or an edge on v = m, parallel to A's edge, whose projection overlaps it in positive
+// length (parallel segments, facing polygon edges). Most cases of this class go through the
+// magnitude streams, half of them through the extreme one (x_).
+func (g *gen) clsPerpFoot() (*sh, *sh) {
+	r := g.r
+	ka, da := g.pickKind(6)
+	kb, db := g.pickKind(7)
+	d := pickP(r, []P{{1, 0}, {1, 0}, {1, 1}, {1, 1}, {2, 1}, {1, 2}, {3, 1}, {3, 2}, {2, 3}})
+	t := r.Range(2, 4)
+	m := r.Range(1, 2)
+	if r.Chance(1, 6) {
+		m = 3
+	}
+	var a, b *sh
+	if da == 1 {
+		ps := []P{{0, 0}, {t, 0}}
+		if r.Bool() {
+			ps = append([]P{{r.Range(-1, 1), -r.Range(1, 2)}}, ps...)
+		}
+		if r.Bool() {
+			ps = append(ps, P{t + r.Range(-1, 1), -r.Range(1, 2)})
+		}
+		if r.Bool() {
+			ps = reversed(ps)
+		}
+		a = lineSh(ps...)
+	} else {
+		h := r.Range(1, 3)
+		switch {
+		case r.Bool():
+			a = polySh(g.finishRing([]P{{0, 0}, {t, 0}, {r.Range(0, t), -h}}))
+		case t >= 3 && h == 3 && r.Bool():
+			a = polySh(g.finishRing(rectOpen(0, -h, t, 0)), g.finishRing(rectOpen(1, -2, t-1, -1)))
+		default:
+			a = polySh(g.finishRing(rectOpen(0, -h, t, 0)))
+		}
+	}
+	s := r.Range(1, t-1)
+	up := func(x int) P { return P{x + r.Range(-2, 2), m + r.Range(1, 2)} }
+	// an edge of B on v = m over [s0,s1], s0 < t, s1 > 0
+	s0 := r.Range(-1, t-1)
+	s1 := r.Range(max(s0+1, 1), t+1)
+	vertexMode := r.Bool()
+	switch {
+	case db == 0:
+		b = pointSh(P{s, m})
+	case db == 1 && vertexMode:
+		ps := []P{{s, m}, up(s)}
+		if r.Bool() {
+			ps = append([]P{up(s)}, ps...)
+		}
+		if r.Bool() {
+			ps = reversed(ps)
+		}
+		b = lineSh(ps...)
+	case db == 1:
+		ps := []P{{s0, m}, {s1, m}}
+		if r.Bool() {
+			ps = append(ps, up(s1))
+		}
+		if r.Bool() {
+			ps = reversed(ps)
+		}
+		b = lineSh(ps...)
+	case vertexMode:
+		// never degenerate: the second vertex is not right of s, the third one is
+		b = polySh(g.finishRing([]P{{s, m}, {s + r.Range(1, 2), m + r.Range(1, 2)}, {s - r.Range(0, 2), m + r.Range(1, 2)}}))
+	default:
+		b = polySh(g.finishRing(rectOpen(s0, m, s1, m+r.Range(1, 2))))
+	}
+	n := P{-d.y, d.x}
+	fr := func(p P) P { return P{p.x*d.x + p.y*n.x, p.x*d.y + p.y*n.y} }
+	a.mapAll(fr)
+	b.mapAll(fr)
+	x0, y0, _, _, _ := bounds(a, b)
+	a.shift(-x0, -y0)
+	b.shift(-x0, -y0)
+	return g.wrapPair(a, ka, b, kb)
+}
+
 // strictInRing: p strictly inside the simple ring given as an open vertex list (integer crossing
 // test; points on the ring count as outside).
 func strictInRing(ring []P, p P) bool {
